@@ -156,16 +156,22 @@ def expect(data):
 
 # --------------------------------------------------------------------------- receivers
 
+class HandlerBoom(Exception):
+  """Raised by a recorder that the case tells to fail on its k-th message (after recording it: the
+  raising invocation is the delivery of that message)."""
+
+
 class CtlRx(object):
   """of_01.Connection on a FakeSock, handlers replaced by recorders."""
   side = "ctl"
   READ = 2048
 
-  def __init__(self):
+  def __init__(self, raise_at=()):
     of_01 = _M[0]
     self.sock = W.FakeSock()
     self.con = of_01.Connection(self.sock)
     self.delivered = []
+    self.raise_at = frozenset(raise_at)
     rec = self._rec
     self.con.handlers = [rec] * 256
     self.received = 0
@@ -173,6 +179,8 @@ class CtlRx(object):
 
   def _rec(self, con, msg):
     self.delivered.append(msg)
+    if len(self.delivered) - 1 in self.raise_at:
+      raise HandlerBoom("handler fails on message %d" % (len(self.delivered) - 1))
 
   def push(self, seg, after):
     self.sock.feed(seg)
@@ -195,18 +203,30 @@ class SwRx(object):
   side = "sw"
   READ = 8192
 
-  def __init__(self):
+  def __init__(self, raise_at=(), early=b""):
     SW = _M[2]
     self.sock = W.FakeSock()
     self.worker = W._make_worker(self.sock)
-    self.conn = SW.OFConnection(self.worker)
     self.delivered = []
-    self.conn.set_message_handler(self._rec)
+    self.raise_at = frozenset(raise_at)
     self.received = 0
     self.closed = False
+    self.conn = None
+    if early:
+      # the worker is already registered with its loop and reading before the OFConnection is built on it
+      self._early(early)
+    self.conn = SW.OFConnection(self.worker)
+    self.conn.set_message_handler(self._rec)
+
+  def _early(self, data):
+    for i in range(0, len(data), self.READ):
+      self.worker._push_receive_data(data[i:i + self.READ])
+    self.received += len(data)
 
   def _rec(self, conn, msg):
     self.delivered.append(msg)
+    if len(self.delivered) - 1 in self.raise_at:
+      raise HandlerBoom("handler fails on message %d" % (len(self.delivered) - 1))
 
   def push(self, seg, after):
     for i in range(0, len(seg), self.READ):       # RecocoIOWorker._do_recv: recv(8192) then _push_receive_data
@@ -238,9 +258,18 @@ class SwIoRx(SwRx):
   real IOWorker._do_recv, once per select wake-up while the socket is readable."""
   side = "sw"
 
-  def __init__(self):
-    SwRx.__init__(self)
+  def __init__(self, raise_at=(), early=b""):
+    self.loop = None
+    SwRx.__init__(self, raise_at, early)
+    if self.loop is None:
+      self.loop = _StubLoop(self.worker)
+
+  def _early(self, data):
     self.loop = _StubLoop(self.worker)
+    self.sock.feed(data)
+    while self.sock.inbox:
+      self.worker._do_recv(self.loop)
+    self.received += len(data)
 
   def push(self, seg, after):
     self.sock.feed(seg)
@@ -312,7 +341,14 @@ def run_case(case):
     p += len(m)
     ends.append(p)
   cuts = segments_of(case, len(stream))
-  bounds = [0] + cuts + [len(stream)]
+  pre = int(case.get("pre", 0) or 0)
+  if pre:
+    if side != "sw":
+      raise HarnessError("pre (bytes read before the OFConnection exists) is a switch-side scenario")
+    pre = max(1, min(pre, len(stream) - 1))
+    cuts = [c for c in cuts if c > pre]
+  raise_at = sorted(set(int(k) for k in (case.get("raise") or [])))
+  bounds = [pre] + cuts + [len(stream)]
   segs = [stream[bounds[i]:bounds[i + 1]] for i in range(len(bounds) - 1)]
   if complete:
     segs.append(full[len(stream):])
@@ -347,10 +383,26 @@ def run_case(case):
   via = case.get("via", "push")
   if via not in ("push", "recv") or (via == "recv" and side != "sw"):
     raise HarnessError("via=%r is only defined for the switch side" % (via,))
-  rx = CtlRx() if side == "ctl" else SwIoRx() if via == "recv" else SwRx()
+  state = {"bad": False, "k": 0, "burst": 0, "after_raise": 0}
+  try:
+    rx = CtlRx(raise_at) if side == "ctl" else (SwIoRx if via == "recv" else SwRx)(raise_at, stream[:pre])
+  except Exception as e:
+    if W_is_harness(e):
+      raise
+    out.violations.append({"key": exc_key(e, clause="setup-raises", side=side),
+                           "msg": "building the connection on a worker that has already read %d bytes raised %r" % (pre, e)})
+    return out
   if side == "sw":
     out.label("via:" + via)
-  state = {"bad": False, "k": 0, "burst": 0}
+  if pre:
+    npre = bisect.bisect_right(ends, pre)
+    out.label("early:%s" % ("partial" if npre == 0 else "1-msg" if npre == 1 else "2+msgs"))
+    if npre >= 1 and len(msgs) >= 2:
+      out.nontrivial = True
+    if rx.delivered and len(rx.delivered) > npre:
+      out.fail("delivered-early", "%d messages delivered while only %d were complete before the connection object existed" % (
+          len(rx.delivered), npre), side=side)
+      return out
 
   def after():
     if state["bad"]:
@@ -358,6 +410,9 @@ def run_case(case):
     got = rx.received
     k = bisect.bisect_right(ends, got)
     state["burst"] = max(state["burst"], k - state["k"])
+    for ra in raise_at:
+      if state["k"] <= ra < k - 1:
+        state["after_raise"] = max(state["after_raise"], k - 1 - ra)     # messages completed by the same read, behind the failing one
     state["k"] = k
     nd = len(rx.delivered)
     if rx.closed:
@@ -392,6 +447,11 @@ def run_case(case):
     out.violations.append({"key": exc_key(e, clause="read-raises", side=side),
                            "msg": "reading a well-formed stream raised %r" % (e,)})
     return out
+  if raise_at:
+    ar = state["after_raise"]
+    out.label("raise:%s" % ("none-behind" if ar == 0 else "1-behind" if ar == 1 else "2+behind"))
+    if ar >= 1:
+      out.nontrivial = True
   b = state["burst"]
   out.label("burst:%s" % ("0-1" if b < 2 else "2-32" if b <= 32 else "33-256" if b <= 256 else "257+"))
   if b > 32 and len(msgs) >= 2:
@@ -562,6 +622,53 @@ def burst_specs(side, count, variant):
   return out
 
 
+def enum_raises(tier):
+  """The message handler raises on message k (every k), with the rest of the stream already received or
+  arriving in the same / a later read."""
+  for side, extra in _sides():
+    streams = [(n, sp) for n, sp in catalogue(side) if sum(_lens(sp)) <= 3000]
+    streams.append(("burst40", burst_specs(side, 40, 2)))
+    for name, specs in streams:
+      lens = _lens(specs)
+      total = sum(lens)
+      bnds = [sum(lens[:i]) for i in range(1, len(lens))]
+      ks = range(len(specs)) if len(specs) <= 8 else [0, 1, 5, 30, 31, 32, 38, 39]
+      for k in ks:
+        base = dict(extra, side=side, msgs=specs)
+        yield dict(base, cuts=[], **{"raise": [k]})
+        for b in bnds[:12]:
+          for d in (-1, 0, 3):
+            if 0 < b + d < total:
+              yield dict(base, cuts=[b + d], **{"raise": [k]})
+        yield dict(base, chunk=7, **{"raise": [k]})
+      yield dict(extra, side=side, msgs=specs, cuts=[], **{"raise": list(range(len(specs)))})
+      yield dict(extra, side=side, msgs=specs, cuts=[], **{"raise": list(range(0, len(specs), 2))})
+
+
+def enum_early(tier):
+  """Switch side: the worker has already read a prefix of the stream when the OFConnection is built on it."""
+  for side, extra in _sides():
+    if side != "sw":
+      continue
+    streams = [(n, sp) for n, sp in catalogue(side) if sum(_lens(sp)) <= 3000]
+    streams.append(("burst40", burst_specs(side, 40, 2)))
+    for name, specs in streams:
+      lens = _lens(specs)
+      total = sum(lens)
+      pres = range(1, total) if total <= 420 else sorted(set(_special_offsets(lens, total)) | set(range(1, 64)))
+      for pre in pres:
+        base = dict(extra, side=side, msgs=specs, pre=pre)
+        yield dict(base, cuts=[])
+        if pre + 3 < total:
+          yield dict(base, cuts=[pre + 3])
+        if pre % 5 == 0:
+          yield dict(base, chunk=1)
+    # large prefix: more than one read's worth is queued before the connection exists
+    big = [_s(R.PACKET_OUT, 9000, 1), _s(R.HELLO), _s(R.ECHO_REQUEST, 3)]
+    for pre in (8191, 8192, 8193, 9015, 9016, 9017, 9024, 9030):
+      yield dict(extra, side=side, msgs=big, pre=pre, cuts=[])
+
+
 _BURSTS = [2, 31, 32, 33, 34, 40, 64, 65, 100, 255, 256, 257, 300, 1000, 1024, 1025]
 
 
@@ -681,6 +788,10 @@ def case_strategy(draw, tier):
     case["tail"] = {"spec": tspec, "keep": draw(st.one_of(st.integers(1, 9), st.integers(1, max(1, tl - 1)))),
                     "complete": draw(st.booleans())}
     total += max(1, min(case["tail"]["keep"], tl - 1))
+  if draw(st.integers(0, 3)) == 0:
+    case["raise"] = sorted(set(draw(st.lists(st.integers(0, max(0, nm - 1)), min_size=1, max_size=3))))
+  if side == "sw" and draw(st.integers(0, 3)) == 0:
+    case["pre"] = draw(st.one_of(st.integers(1, 40), st.integers(1, max(1, total - 1))))
   mode = draw(st.integers(0, 9))
   if mode == 0 and total < 20000:
     case["chunk"] = draw(st.sampled_from([1, 1, 2, 3, 4, 7, 8, 9, 13]))
@@ -714,5 +825,7 @@ def plan(tier):
     Enum("dribble", lambda: enum_dribble(tier), shards=16),
     Enum("tail", lambda: enum_tail(tier), shards=16),
     Enum("bursts", lambda: enum_bursts(tier), shards=16),
+    Enum("raises", lambda: enum_raises(tier), shards=16),
+    Enum("early", lambda: enum_early(tier), shards=16),
     Hyp("kcuts", lambda: case_strategy(tier), examples=n, shards=16),
   ]
